@@ -160,6 +160,41 @@ func pickLost(seed uint64, lo, hi int) []int {
 	return out
 }
 
+// genCutCrash: a write sequence whose last save cuts, crashed between the sync of the new head and the
+// rename; after recovery one more save (which cuts again, reusing the left-over .tmp), then restart.
+func genCutCrash(r *rng, id string) *Scenario {
+	sc := &Scenario{ID: id, NoPred: true, CutCrash: true, Two: true}
+	sc.Seg = []int{128, 256}[r.intn(2)]
+	sc.Meta = []int{2, 3, 5}[r.intn(3)]
+	term := uint64(1 + r.intn(200))
+	vote := uint64(1 + r.intn(3))
+	last, commit := uint64(0), uint64(0)
+	for {
+		n := 1 + r.intn(2)
+		op := Op{K: "save", First: last + 1, Term: term, Sync: true}
+		tot := 0
+		for i := 0; i < n; i++ {
+			s := 100 + r.intn(sc.Seg*8)
+			op.Bs = append(op.Bs, s)
+			tot += s
+		}
+		last += uint64(n)
+		if len(sc.Ops) == 0 || r.intn(2) == 0 {
+			commit += uint64(r.intn(int(last-commit) + 1))
+			op.Hs = [3]uint64{term, vote, commit}
+		}
+		sc.Ops = append(sc.Ops, op)
+		if len(sc.Ops) >= 2 && r.intn(2) == 0 || len(sc.Ops) >= 5 {
+			break
+		}
+	}
+	app := Op{K: "save", Sync: true, Bs: []int{1 + r.intn(60)}}
+	sc.App = []Op{app}
+	sc.AppNewTerm = r.intn(2) == 0
+	sc.CloseBeforeCrash2 = true
+	return sc
+}
+
 func runRandom(sink *Sink, work string, seed uint64, shard, nshard, n int, trace bool) {
 	for i := 0; i < n; i++ {
 		if i%nshard != shard {
@@ -167,7 +202,12 @@ func runRandom(sink *Sink, work string, seed uint64, shard, nshard, n int, trace
 		}
 		id := fmt.Sprintf("r%d.%d", seed, i)
 		r := &rng{s: seed*1000003 + uint64(i)}
-		sc := genRandom(r, id)
+		var sc *Scenario
+		if i%8 == 7 {
+			sc = genCutCrash(r, id)
+		} else {
+			sc = genRandom(r, id)
+		}
 		if trace {
 			fmt.Println("BEGIN", id)
 		}
